@@ -293,6 +293,9 @@ def tensor_method(it, tv, name, args, kwargs, node):
             return VTens(tv.obj, tv.view, tv._shape)
         if rank == 2:
             return VTens(tv.obj, tv.view + (("op", "t"),), new_shape)
+        if t is not None and T.as_stack0(t) is not None and rank is not None and a + rank >= 1 and b + rank >= 1:
+            # the leading (stacked) axis is not involved: the components are transposed one by one
+            return VTens(tv.obj, tv.view + (("op", "transpose_s", a, b, rank - 1),), new_shape)
         return VTens(tv.obj, tv.view + (("op", "transpose", a, b),), new_shape)
 
     # ---------------- reductions
